@@ -176,3 +176,49 @@ Example ex_no_wrap :
   sfl_model {| st_ws := WsPre; st_ow := OwNormal; st_break_all := false; st_hyph_manual := true; st_fs := 10 |}
             (tx "aaa bbb/cc") (Some 20%Q) true false = Out (tx "aaa bbb") 7 (Some 8) 70.
 Proof. vm_compute. reflexivity. Qed.
+
+(* beyond Pango's limit (max_width >= 2^21 px) create_layout sets no width at all: a breakable text wider than the
+   available width stays on one line *)
+Lemma greedy_refuted_beyond_pango_width_limit :
+  exists st t w, let o := sfl_model st t (Some w) true false in
+    o = Out (tx "a b") 3 None 6291456 /\ (w < 6291456)%Q /\
+    sp_end (spec_first_line st t (Some w) true false) = 1%nat /\
+    spec_mask st t (Some w) true false o <> 0%nat.
+Proof.
+  exists {| st_ws := WsNormal; st_ow := OwNormal; st_break_all := false; st_hyph_manual := true; st_fs := 2097152 # 1 |},
+         (tx "a b"), (2097152 # 1)%Q.
+  vm_compute. repeat split; try reflexivity; discriminate.
+Qed.
+
+(* ---- inputs outside the guard of first_line_is_greedy and outside the refuted classes: checked on instances only
+   (and per case by the correspondence run); what is missing for a theorem is said in each comment *)
+Definition st_ws_ow (ws : white_space) (ow : overflow_wrap) : style :=
+  {| st_ws := ws; st_ow := ow; st_break_all := false; st_hyph_manual := true; st_fs := 10 |}.
+(* preserved newlines (pre-line / pre-wrap): missing = the induction of C09_greedy.v redone on the first paragraph,
+   with Layout.set_text's truncation after the newline (G and Gattrs see only the paragraph plus one character) *)
+Example greedy_with_newline_partial :
+  sfl_model (st_ws_ow WsPreLine OwNormal) (tx "aa bb/cc dd") (Some 60%Q) true false = Out (tx "aa bb") 5 (Some 6) 50 /\
+  sfl_model (st_ws_ow WsPreLine OwNormal) (tx "aa bb/cc dd") (Some 40%Q) true false = Out (tx "aa") 2 (Some 3) 20.
+Proof. vm_compute. split; reflexivity. Qed.
+(* a word wider than the line under overflow-wrap: anywhere at a line start (step 5, WRAP_CHAR with insert_hyphens
+   off): missing = the characterisation of G in character-wrap mode (every position is a candidate) *)
+Example overflow_wrap_char_break_partial :
+  let o := sfl_model (st_ws_ow WsNormal OwAnywhere) (tx "aaaaaaa bb") (Some 30%Q) true false in
+  o = Out (tx "aaa") 3 (Some 3) 30 /\ spec_mask (st_ws_ow WsNormal OwAnywhere) (tx "aaaaaaa bb") (Some 30%Q) true false o = 0%nat.
+Proof. vm_compute. split; reflexivity. Qed.
+(* a space at the start (text box after an inline box) or at the end of the text, several spaces in a row
+   (pre-wrap): missing = G_words and the look-ahead lemma for word lists with empty words *)
+Example edge_spaces_partial :
+  let o := sfl_model (st_ws_ow WsNormal OwNormal) (tx " aaa bb") (Some 30%Q) false false in
+  o = Out [] 0 (Some 1) 0 /\ spec_mask (st_ws_ow WsNormal OwNormal) (tx " aaa bb") (Some 30%Q) false false o = 0%nat.
+Proof. vm_compute. split; reflexivity. Qed.
+
+(* the guard of first_line_is_greedy / lines_cover_text is satisfied by ordinary text *)
+Example ex_greedy_guard :
+  greedy_guard (st_ws_ow WsNormal OwNormal) (tx "aaa bbbb cc dd") 75 true false = true /\
+  greedy_guard (st_ws_ow WsPreWrap OwAnywhere) (tx "aaa bbbb cc dd") 75 true false = true /\
+  greedy_guard_all (st_ws_ow WsNormal OwNormal) (tx "aaa bbbb cc dd") 75 false = true /\
+  sfl_model (st_ws_ow WsNormal OwNormal) (tx "aaa bbbb cc dd") (Some 75%Q) true false = Out (tx "aaa") 3 (Some 4) 30 /\
+  split_lines 15 (st_ws_ow WsNormal OwNormal) (tx "aaa bbbb cc dd") 75 false =
+    Some [(tx "aaa", [Sp]); (tx "bbbb cc", [Sp]); (tx "dd", [])].
+Proof. vm_compute. repeat split; reflexivity. Qed.
